@@ -23,6 +23,9 @@ CLAIMED = {
     'C11': ('H-EVAL', 'Returned history vs reported outputs / consumed upstream outputs term by term; skipped jobs: validity query that each edge record matches the upstream\'s current output under the comparison.', '7.11'),
     'C13': ('H-EVAL', 'Cleanup automaton per Ephemeral on every path, acknowledgement delay is a schedule choice.', '7.13'),
     'C16': ('H-EVAL', 'Every success event of a re-executed Ephemeral with a fresh symbolic output: error <=> validated and output judged altered, as validity queries; error only if inputs unchanged per reference.', '7.16'),
+    'C14': ('H-ORDER', 'Failure-free evaluation explored under every interleaving / cleanup delay and under several declaration orders of nodes and edges; for every pair of completed paths with different outcome z3 decides whether one input (history, present set, outputs, comparison relation) admits both.', '7.14'),
+    'C15': ('H-EVAL+H-ORDER', 'The C03/C04/C06/C07/C11/C16 oracles and the C14 pairwise check under S-rel (and S-prod in thorough): the comparison is an uninterpreted equivalence relation (kernel of an uninterpreted function), so every obligation is decided for all comparison functions at once; only violations that do not also occur under plain string inequality are attributed to C15.', '7.15'),
+    'C20': ('H-EVAL', 'At every distinct reachable engine state of the exploration every illegal call on every job (start, success, failure, cleanup acknowledgement, second startup) is executed on a copy: result must be APIError and the complete engine state and all query results must be exactly unchanged.', '7.20'),
     'C17': ('H-EVAL', 'Report-consistency invariants at every quiescent state of every path (ready/running/failed/upstream-failed/cleanup/finished vs driver events and per-job states).', '7.17'),
 }
 
